@@ -12,7 +12,9 @@ ASSUME = [
     "bounds: one symbolic target/selected particle plus one bystander of another species; rejection loop K=3; symbolic momenta in [-5,5]^3, aperture in [0.01,1.5], axis +z or symbolic",
     "not decided (z3 unknown / timeout, reported as outside the claim): rigidity with two or more rotated particles, containment of the final direction in the cone for a general axis, the rectangular window cuts",
 ]
-CASES = ["entry", "run -1 e 0 z", "run -1 e 0 s", "run 0 e 0 z", "run 0 e 0 s", "run -1 eg 0 z", "run -1 ge 0 z", "run -1 g 0 z", "run 0 gg 0 s", "run 1 e 0 z", "run 0 g 0 z", "run 0 a 0 s"]
+CASES = ["entry", "run -1 e 0 z", "run -1 e 0 s", "run 0 e 0 z", "run 0 e 0 s", "run -1 eg 0 z", "run -1 ge 0 z", "run -1 g 0 z", "run 0 gg 0 s", "run 1 e 0 z", "run 0 g 0 z", "run 0 a 0 s",
+         # error_on_missing_particle requested: an exception exactly when no particle of the species sits at the requested rank
+         "run 1 eg 0 z E", "run 0 e 0 z E", "run 0 g 0 z E", "run 2 ege 0 z E", "run -1 g 0 z E"]
 
 
 def run(tier, seed):
